@@ -24,7 +24,7 @@ use serde_json::Value;
 pub const META: PropertyMeta = PropertyMeta {
     id: "C14",
     level: "exploration",
-    rule: "case = (type, entropy bytes); the value is built from the entropy by a structure-aware reader that decides every enum variant, optional member, collection length (0, 1, several, occasionally 40-1000), string class (empty, ASCII, non-ASCII table, arbitrary scalar values, 300-5000 chars), byte payload class (empty, 1 byte, small, medium, 64-320 KiB) and number class (0, 1, u32::MAX, u32::MAX+1, i64::MAX, u64::MAX; timestamps 0001-01-01, 9999-12-31T23:59:59, -1 s, i32 edges, negative seconds, nanos 0/1/999_999_999); commit proofs are real proofs of CommitTrees with 1-300 leaves (head, first, single, multi-leaf) plus default and synthetic ones. Types: binary WriteEvent AccountEvent DeviceEvent FileEvent (all variants but Noop) EventRecord CommitHash CommitProof CommitState Comparison UtcDateTime AeadPack Cipher KeyDerivation VaultEntry VaultCommit Vault Header(+Auth) Summary SharedAccess VaultMeta SecretMeta Secret(15 kinds, user data, nested custom fields) SecretRow; wire UtcDateTime CommitHash CommitProof CommitState Comparison EventRecord CheckedPatch EventLogType Origin ExternalFile Patch Diff MaybeDiff SyncStatus SyncDiff SyncCompare SyncPacket CreateSet UpdateSet TrackedChanges MergeOutcome NetworkChangeEvent Scan/Diff/Patch Request/Response FileSet FileTransfersSet; db EventRecordRow. Non-trivial = the value uses at least one non-default optional member, non-empty collection, non-first enum variant or boundary number/string. Distinct = distinct (type, entropy).",
+    rule: "case = (type, entropy bytes); the value is built from the entropy by a structure-aware reader that decides every enum variant, optional member, collection length (0, 1, several, occasionally 40-1000), string class (empty, ASCII, non-ASCII table, arbitrary scalar values, 300-5000 chars), byte payload class (empty, 1 byte, small, medium, 64-320 KiB) and number class (0, 1, u32::MAX, u32::MAX+1, i64::MAX, u64::MAX; timestamps 0001-01-01, 9999-12-31T23:59:59, -1 s, i32 edges, negative seconds, nanos 0/1/999_999_999); commit proofs are real proofs of CommitTrees with 1-300 leaves (head, first, single, multi-leaf) plus default and synthetic ones. Types: binary WriteEvent AccountEvent DeviceEvent FileEvent (all variants but Noop) EventRecord CommitHash CommitProof CommitState Comparison UtcDateTime AeadPack Cipher KeyDerivation VaultEntry VaultCommit Vault Header(+Auth) Summary SharedAccess VaultMeta SecretMeta Secret(15 kinds, user data, nested custom fields) SecretRow AuditEvent(all event kinds, all AuditData variants); wire UtcDateTime CommitHash CommitProof CommitState Comparison EventRecord CheckedPatch EventLogType Origin ExternalFile Patch Diff MaybeDiff SyncStatus SyncDiff SyncCompare SyncPacket CreateSet UpdateSet TrackedChanges MergeOutcome NetworkChangeEvent Scan/Diff/Patch Request/Response FileSet FileTransfersSet; db EventRecordRow. Non-trivial = the value uses at least one non-default optional member, non-empty collection, non-first enum variant or boundary number/string. Distinct = distinct (type, entropy).",
     assumptions: &[
         "recipients of SharedAccess::WriteAccess and keys of Secret::Age are syntactically valid age x25519 strings (the decoder validates them by design); URLs, URNs, vCards, PEM tags and TOTP parameters are drawn from valid values of the respective third-party types",
         "MergeOutcome.external_files is not part of the wire format by design (doc(hidden), rebuilt locally) and is generated empty; EventRecordRow does not store last_commit by design",
